@@ -186,7 +186,7 @@ def run_history(case):
                 b["d_tf"] = _units(_maxdiff(l1, full.permute(1, 0, 2)))
                 # (c) every line alone on a pristine copy (cached decoding)
                 d_alone, eq_alone = 0.0, True
-                for i in range(n):
+                for i in (range(n) if n <= 16 else (0, 1, n // 2, n - 1)):       # wide batches: four of the lines alone
                     o3, l3 = _transcribe(engine_for(copy.deepcopy(base)), x[i:i + 1], True)
                     d_alone = max(d_alone, _maxdiff(l1[i:i + 1], l3))
                     eq_alone = eq_alone and (o3[0] == o1[i])
